@@ -46,7 +46,8 @@ NOT_DECIDED = {
 
 TECHNIQUE = {
     'C01': 'AST/CFG/def-use static analysis: uniform-index (row consistency), sort-then-prefix '
-           'ordering, comparison roles, linear index forms, attribute resolution',
+           'ordering, comparison roles, linear index forms, attribute resolution'
+           '; frozen guard table for buffer initialisation and output validation',
     'C02': 'static provenance and effect analysis over the call graph (seed dataflow, ambient '
            'RNG/clock reachability, ordered-iteration check)'
            '; frozen guard table for the choice of the batch generator',
@@ -56,25 +57,32 @@ TECHNIQUE = {
     'C04': 'static ordering and ownership analysis (FIFO pop, cancel-before-replan dominance, '
            'who-may-remove pending ids, schedule-taint of the objective)',
     'C05': 'static pairing / guard analysis of the pool loader, callback ownership and refusal '
-           'guards',
+           'guards'
+           '; frozen guard table for the pool (serve / write / create store)',
     'C06': 'path-sensitive abstract interpretation of file effects over the CFG of every '
-           'NpyArray method (header/shape/disk relation automaton), who-may-touch-the-file scan',
+           'NpyArray method (header/shape/disk relation automaton), who-may-touch-the-file scan'
+           '; frozen guard table for the array state machine with the definitions of its state predicates',
     'C07': 'static polarity (sign lattice) of weight dependence, argument binding and ordering '
-           'over the CFG',
+           'over the CFG'
+           '; adaptive-threshold SMC round state machine (guard facts and ordering)',
     'C08': 'static table agreement (pdf/mul, logpdf/add), domain agreement of product and '
-           'override sets, column-order dataflow',
+           'override sets, column-order dataflow'
+           "; package sweep for returned result buffers that inherit the dtype of a caller's array",
     'C09': 'static RNG provenance, guard dominance, polarity of the acceptance ratio, linear '
            'index forms of allocation and warm-up slice, pairing of NUTS tree ends with the '
-           'state they update, formula-shape patterns for leapfrog and slice',
+           'state they update, formula-shape patterns for leapfrog and slice'
+           '; NUTS selection conditions, ordering of the eligible counts against the draws that read them, boolean structure of the validity flags',
     'C10': 'static argument-role/unit typestate for norm.logcdf, cache-field table agreement, '
            'comparison roles of the bounds test, sibling agreement of fast and regular path on '
            '`noiseless`, syntax-directed symbolic differentiation with exact rational-function '
-           'normalisation of the gradient formulas (no evaluation, no solver)',
+           'normalisation of the gradient formulas (no evaluation, no solver)'
+           '; evidence update (guard table, rebuild arguments bound by name); dtype-inheritance sweep',
     'C11': 'static taint/sanitiser analysis of acquire() return values over all overrides, '
            'truncation-limit polarity, evidence pairing, MRO pairing of evaluate / '
            'evaluate_gradient, syntax-directed symbolic differentiation (exp, log, sqrt, normal '
            'cdf, Owen T) with exact normal forms for the closed-form acquisition gradients'
-           '; control-flow rules of the optimisation loop (prior phase exactly t < 0, base refusal honoured, batch returned, optimisation recorded when it ran), zero-variance column skipped',
+           '; control-flow rules of the optimisation loop (prior phase exactly t < 0, base refusal honoured, batch returned, optimisation recorded when it ran), zero-variance column skipped'
+           '; definitions of the predicates the submission gate reads',
     'C12': 'static dataflow of distance arguments, append-only history ownership, unit '
            'typestate of the adaptive scale, def-use ordering of the Welford update, abstract '
            'interpretation of the straight-line update over sample-sum normal forms (inductive '
@@ -107,7 +115,8 @@ TECHNIQUE = {
            'agreement of the three helpers, polarity of the MH log-ratio, exact rational-function '
            '/ log-linear normal forms of the transform, Jacobian and unbiased-estimator formulas '
            'read off the syntax tree (coefficient comparison, no evaluation, no solver), scale '
-           'typestate with a feasibility-filtered CFG path rule',
+           'typestate with a feasibility-filtered CFG path rule'
+           '; frozen guard table for the branches of the BSL step and the standard likelihood',
 }
 
 
